@@ -1,3 +1,372 @@
-/- C01 — property theorems (stub: the property is not claimed yet). -/
+/-
+  C01 — Serialise → parse round trip preserves the document tree.
+
+  Model: serialisers (AHP/Model/Tree.lean), strict lexer (AHP/Model/Lexer.lean), builder
+  (AHP/Model/Builder.lean).  Helper lemmas: AHP/Lemmas/RoundTrip.lean (token level),
+  AHP/Lemmas/LexRoundTrip.lean (character level).
+
+  Documents are taken in *lexical normal form* (`LNode`): every text block is one text-like token of the
+  tokenizer — which is the form of every tree a parse produces.  For trees built through the API with other
+  text segmentations `html_norm` shows the serialisation does not depend on the segmentation, so the first
+  round trip lands in this form and the theorems apply from there (see `C01a_general_partial`).
+-/
+import AHP.Lemmas.RoundTrip
+import AHP.Lemmas.LexRoundTrip
 namespace AHP.C01
+open AHP AHP.Spec
+
+/-! #### the serialiser writes the rendering of the tree's token sequence -/
+
+theorem textlike_render (t : Token) (h : (Spec.textOf t).isSome) : textOfD t = renderTok t := by
+  cases t with
+  | data d =>
+    by_cases hd : d.isEmpty = true
+    · simp [Spec.textOf, hd] at h
+    · simp [textOfD, Spec.textOf, hd, renderTok]
+  | entity e => simp [textOfD, Spec.textOf, renderTok]
+  | charref e => simp [textOfD, Spec.textOf, renderTok]
+  | comment e => simp [textOfD, Spec.textOf, renderTok]
+  | decl d => simp [Spec.textOf] at h
+  | unknownDecl d => simp [Spec.textOf] at h
+  | pi d => simp [Spec.textOf] at h
+  | start n a => simp [Spec.textOf] at h
+  | startend n a => simp [Spec.textOf] at h
+  | end_ n => simp [Spec.textOf] at h
+
+mutual
+theorem html_eq_render (t : LNode) (h : t.WF) : t.toNode.html = renderToks t.toks := by
+  match t, h with
+  | .tok tk, h =>
+    simp only [LNode.WF] at h
+    simp [LNode.toNode, Node.html, LNode.toks, renderToks, textlike_render tk h]
+  | .elem n a sc kids, h =>
+    simp only [LNode.WF] at h
+    obtain ⟨_, _, hsc, hk⟩ := h
+    cases hs : sc with
+    | true =>
+      have : kids = [] := hsc hs
+      subst this
+      simp [LNode.toNode, Node.html, LNode.toks, renderToks, startTag, startTagI, endTag, renderTok]
+    | false =>
+      have ih := htmlL_eq_render kids hk
+      simp [LNode.toNode, Node.html, LNode.toks, renderToks, startTag, startTagI, endTag, renderTok,
+        renderToks_append, ih]
+theorem htmlL_eq_render (ks : List LNode) (h : WFLL ks) : htmlL (toNodeL ks) = renderToks (toksL ks) := by
+  match ks, h with
+  | [], _ => rfl
+  | k :: ks, h =>
+    simp only [WFLL] at h
+    simp [toNodeL, htmlL, toksL, renderToks_append, html_eq_render k h.1, htmlL_eq_render ks h.2]
+end
+
+/-- well-formedness of a document in terms of its token sequence (decidable): every token is in the
+    serialiser's image and no two data runs are adjacent -/
+def ToksOK (ts : List Token) : Prop := (∀ t ∈ ts, TokOK t) ∧ NoAdjData ts
+
+/-! #### C01c — values come back unchanged -/
+
+/-- Quotes, angle brackets, non-ASCII, anything: a value written by `escapeQuotes` between double quotes
+    is read back exactly, provided no `&` in it starts a reference. -/
+theorem value_roundtrip (v rest : Str) (h : ValueOK v) :
+    (readUntil '"' (escQ v ++ '"' :: rest)).bind (fun p => (unescValue (p.1.length + 1) p.1).map (fun w => (w, p.2)))
+      = some (v, rest) := by
+  rw [readUntil_append '"' (escQ v) rest (escQ_no_quote v)]
+  simp [unesc_esc v h _ (Nat.lt_succ_self _)]
+
+/-- the serialisation depends only on the concatenation of adjacent text blocks -/
+theorem serialisation_ignores_text_segmentation (t : Node) : t.norm.html = t.html := html_norm t
+
+/-! #### C01a — single-root documents -/
+
+/-- the root element built from the initial state -/
+theorem root_rt (n : Str) (a : AttrState) (sc : Bool) (kids : List LNode) (h : (LNode.elem n a sc kids).WF) :
+    runT TState.init (LNode.elem n a sc kids).toks
+      = .ok ⟨[], some (LNode.elem n a sc kids).toNode.reintake⟩ := by
+  simp only [LNode.WF] at h
+  obtain ⟨hl, hv, hsc, hk⟩ := h
+  unfold LNode.toks
+  cases hs : sc with
+  | true =>
+    have : kids = [] := hsc hs
+    subst this
+    simp [runT, stepT, handleStart, TState.init, TState.hasRoot, addNode, hl, LNode.toNode, toNodeL,
+      Node.reintake, reintakeL, reintakeA]
+  | false =>
+    have hnv : AHP.isVoid n = false := by
+      cases hvv : AHP.isVoid n with
+      | false => rfl
+      | true => have := hv hvv; simp_all
+    have hstart : stepT TState.init (.start n a.view) = .ok ⟨[⟨n, reintakeA a, []⟩], none⟩ := by
+      simp [stepT, handleStart, TState.init, TState.hasRoot, hl, hnv, reintakeA]
+    simp only [Bool.false_eq_true, if_false, runT, hstart]
+    rw [runT_append, lforest_rt kids hk ⟨n, reintakeA a, []⟩ [] none]
+    simp [runT, stepT, handleEnd, popTo, pop1, addNode, Frame.close, LNode.toNode, Node.reintake]
+
+mutual
+theorem decl_not_in (t : LNode) (h : t.WF) (x : Str) : Token.decl x ∉ t.toks := by
+  match t, h with
+  | .tok tk, h =>
+    simp only [LNode.WF] at h
+    simp only [LNode.toks, List.mem_singleton]
+    intro e; rw [← e] at h; simp [Spec.textOf] at h
+  | .elem n a sc kids, h =>
+    simp only [LNode.WF] at h
+    unfold LNode.toks
+    split
+    · simp
+    · simp only [List.mem_cons, List.mem_append, List.mem_singleton, not_or]
+      exact ⟨by simp, decl_not_inL kids h.2.2.2 x, by simp⟩
+theorem decl_not_inL (ks : List LNode) (h : WFLL ks) (x : Str) : Token.decl x ∉ toksL ks := by
+  match ks, h with
+  | [], _ => simp [toksL]
+  | k :: ks, h =>
+    simp only [WFLL] at h
+    simp only [toksL, List.mem_append, not_or]
+    exact ⟨decl_not_in k h.1 x, decl_not_inL ks h.2 x⟩
+end
+
+/-- tokens of the doctype line `<!d>\n` -/
+def doctypeToks (dt : Option Str) : List Token :=
+  match dt with
+  | some d => if d.isEmpty then [] else [.decl d, .data ['\n']]
+  | none => []
+
+theorem docHTML_single (dt : Option Str) (n : Str) (a : AttrState) (sc : Bool) (kids : List LNode)
+    (h : (LNode.elem n a sc kids).WF) (hw : n ≠ wrapperName) :
+    docHTML dt (LNode.elem n a sc kids).toNode = renderToks (doctypeToks dt ++ (LNode.elem n a sc kids).toks) := by
+  have hh := html_eq_render (.elem n a sc kids) h
+  rw [renderToks_append, ← hh]
+  cases dt with
+  | none => simp [docHTML, LNode.toNode, hw, doctypeToks, renderToks]
+  | some d =>
+    by_cases hd : d.isEmpty = true
+    · simp [docHTML, LNode.toNode, hw, doctypeToks, renderToks, hd]
+    · simp [docHTML, LNode.toNode, hw, doctypeToks, renderToks, hd, renderTok]
+
+/-- **C01a (single root).** For every single-root document in lexical normal form whose tokens are in the
+    serialiser's image — any size, any depth — `parse (getHTML d)` is the document with its attribute stores
+    re-read from their rendering: same names, nesting, self-closing flags, text, doctype. -/
+theorem roundtrip_single (dt : Option Str) (n : Str) (a : AttrState) (sc : Bool) (kids : List LNode)
+    (hwf : (LNode.elem n a sc kids).WF) (hw : n ≠ wrapperName)
+    (hok : ToksOK (doctypeToks dt ++ (LNode.elem n a sc kids).toks)) :
+    ∃ toks, lexStrict (docHTML dt (LNode.elem n a sc kids).toNode) = some toks ∧
+      feedTokens toks = .doc ⟨(doctypeToks dt).foldl stepD none, some (LNode.elem n a sc kids).toNode.reintake⟩ false := by
+  refine ⟨doctypeToks dt ++ (LNode.elem n a sc kids).toks, ?_, ?_⟩
+  · rw [docHTML_single dt n a sc kids hwf hw]
+    exact lexStrict_renderToks _ hok.1 hok.2
+  · have hroot := root_rt n a sc kids hwf
+    have hpre : runT TState.init (doctypeToks dt ++ (LNode.elem n a sc kids).toks)
+        = runT TState.init (LNode.elem n a sc kids).toks := by
+      unfold doctypeToks
+      cases dt with
+      | none => rfl
+      | some d =>
+        by_cases hd : d.isEmpty = true
+        · simp [hd]
+        · have h1 : stepT TState.init (.data ['\n']) = .ok TState.init := by
+            simp [stepT, TState.init, isBlank, strip, lstrip, rstrip, isWs]
+          have h2 : stepT TState.init (.decl d) = .ok TState.init := rfl
+          simp only [hd, Bool.false_eq_true, if_false, List.cons_append, List.nil_append, runT, h1, h2]
+    have hrun := run_eq (doctypeToks dt ++ (LNode.elem n a sc kids).toks) BState.init
+    unfold feedTokens
+    rw [hrun]
+    simp only [BState.init]
+    rw [hpre, hroot]
+    simp only [Outcome.map, FeedResult.ofPass, BState.doc, finish_nil, List.foldl_append]
+    -- the element's own tokens do not touch the doctype
+    have hnd : ∀ (ts : List Token) (d0 : Option Str), (∀ t ∈ ts, ∀ x, t ≠ .decl x ∧ t ≠ .unknownDecl x) →
+        ts.foldl stepD d0 = d0 := by
+      intro ts
+      induction ts with
+      | nil => intro _ _; rfl
+      | cons t ts ih =>
+        intro d0 hall
+        have ht := hall t (by simp)
+        simp only [List.foldl_cons]
+        have : stepD d0 t = d0 := by
+          cases t <;> simp [stepD]
+          · exact absurd rfl (ht _).1
+          · exact absurd rfl (ht _).2
+        rw [this]
+        exact ih d0 (fun t' ht' => hall t' (List.mem_cons_of_mem _ ht'))
+    have hno : ∀ t ∈ (LNode.elem n a sc kids).toks, ∀ x, t ≠ .decl x ∧ t ≠ .unknownDecl x := by
+      intro t ht x
+      have hT := hok.1 t (List.mem_append_right _ ht)
+      constructor
+      · intro e; subst e
+        -- a declaration among the element's tokens would have to be a text-like token of the tree: it is not
+        exact decl_not_in _ hwf x ht
+      · intro e; subst e; exact absurd hT (by simp [TokOK])
+    rw [hnd _ _ hno]
+
+/-! #### C01b — the second serialisation is identical -/
+
+theorem doctype_of_line (dt : Option Str) :
+    docHTML ((doctypeToks dt).foldl stepD none) = docHTML dt := by
+  funext root
+  cases dt with
+  | none => rfl
+  | some d =>
+    by_cases hd : d.isEmpty = true
+    · have : d = [] := by simpa using hd
+      subst this
+      simp [doctypeToks, docHTML]
+    · simp [doctypeToks, hd, stepD]
+
+/-- **C01b.** Serialising the re-parsed document returns the identical string (for stores whose rendering
+    is stable under re-reading — `plain_viewStable` shows that this holds for every store without
+    class/style; C09/C10 cover those two). -/
+theorem second_serialisation_identical (dt : Option Str) (n : Str) (a : AttrState) (sc : Bool) (kids : List LNode)
+    (hst : (LNode.elem n a sc kids).toNode.Stable) :
+    docHTML ((doctypeToks dt).foldl stepD none) (LNode.elem n a sc kids).toNode.reintake
+      = docHTML dt (LNode.elem n a sc kids).toNode := by
+  rw [doctype_of_line]
+  have h := html_reintake _ hst
+  simp only [LNode.toNode, Node.reintake] at h ⊢
+  simp only [docHTML]
+  split
+  · simp only [Node.innerHTML]
+    have hst2 : StableL (toNodeL kids) := by
+      simp only [LNode.toNode, Node.Stable] at hst; exact hst.2
+    rw [htmlL_reintake _ hst2]
+  · rw [h]
+
+/-! #### C01a — multi-root documents (no doctype: the white space after the doctype of a multi-root
+       document is outside the property's domain) -/
+
+theorem roundtrip_multi (ks : List LNode) (hwf : WFLL ks) (hok : ToksOK (toksL ks))
+    (hmulti : run BState.init (toksL ks) = .multipleRoot) :
+    ∃ toks, lexStrict (docHTML none (.elem wrapperName AttrState.empty false (toNodeL ks))) = some toks ∧
+      feedTokens toks
+        = .doc ⟨none, some (.elem wrapperName AttrState.empty false (reintakeL (toNodeL ks)))⟩ true := by
+  refine ⟨toksL ks, ?_, ?_⟩
+  · have : docHTML none (.elem wrapperName AttrState.empty false (toNodeL ks)) = renderToks (toksL ks) := by
+      simp [docHTML, Node.innerHTML, htmlL_eq_render ks hwf]
+    rw [this]
+    exact lexStrict_renderToks _ hok.1 hok.2
+  · unfold feedTokens
+    rw [hmulti]
+    simp only
+    have hlead : leadDoctype (toksL ks) = none := by
+      unfold leadDoctype
+      split
+      · rename_i d r heq
+        exact absurd (by rw [heq]; simp) (decl_not_inL ks hwf d)
+      · rename_i ws d r heq
+        exact absurd (by rw [heq]; simp) (decl_not_inL ks hwf d)
+      · rfl
+    have hwrap : wrapToks (toksL ks) = .start wrapperName [] :: toksL ks ++ [.end_ wrapperName] := by
+      simp [wrapToks, hlead]
+    rw [hwrap, run_eq]
+    simp only [BState.init]
+    have hs : stepT TState.init (.start wrapperName []) = .ok ⟨[⟨wrapperName, AttrState.empty, []⟩], none⟩ := by
+      simp [stepT, handleStart, TState.init, TState.hasRoot, wrapper_lower, wrapper_not_void, intake]
+    have hrun : runT TState.init (.start wrapperName [] :: toksL ks ++ [.end_ wrapperName])
+        = .ok ⟨[], some (.elem wrapperName AttrState.empty false (reintakeL (toNodeL ks)))⟩ := by
+      simp only [List.cons_append, runT, hs]
+      rw [runT_append, lforest_rt ks hwf ⟨wrapperName, AttrState.empty, []⟩ [] none]
+      simp [runT, stepT, handleEnd, popTo, pop1, addNode, Frame.close]
+    rw [hrun]
+    simp only [Outcome.map, FeedResult.ofPass, BState.doc, finish_nil]
+    -- no declaration among the tokens: the doctype stays empty
+    have hnd : ∀ (ts : List Token) (d0 : Option Str), (∀ t ∈ ts, ∀ x, t ≠ .decl x ∧ t ≠ .unknownDecl x) →
+        ts.foldl stepD d0 = d0 := by
+      intro ts
+      induction ts with
+      | nil => intro _ _; rfl
+      | cons t ts ih =>
+        intro d0 hall
+        have ht := hall t (by simp)
+        simp only [List.foldl_cons]
+        have : stepD d0 t = d0 := by
+          cases t <;> simp [stepD]
+          · exact absurd rfl (ht _).1
+          · exact absurd rfl (ht _).2
+        rw [this]
+        exact ih d0 (fun t' ht' => hall t' (List.mem_cons_of_mem _ ht'))
+    have hno : ∀ t ∈ (Token.start wrapperName [] :: toksL ks ++ [Token.end_ wrapperName]), ∀ x,
+        t ≠ .decl x ∧ t ≠ .unknownDecl x := by
+      intro t ht x
+      simp only [List.cons_append, List.mem_cons, List.mem_append, List.mem_singleton] at ht
+      rcases ht with e | ht | e
+      · subst e; simp
+      · constructor
+        · intro e; subst e; exact decl_not_inL ks hwf x ht
+        · intro e; subst e; exact absurd (hok.1 _ ht) (by simp [TokOK])
+      · rcases e with e | e
+        · subst e; simp
+        · simp at e
+    rw [hnd _ _ hno]
+
+/-! #### attribute stores without class / style / spellcheck are stable under re-reading -/
+
+def plainKey (k : Str) : Prop :=
+  validAttrName k = true ∧ lower k = k ∧ k ≠ "class".toList ∧ k ≠ "style".toList ∧ k ≠ "spellcheck".toList
+
+theorem dictSet_fresh {β : Type} (d : List (Str × β)) (k : Str) (v : β) (h : ∀ p ∈ d, p.1 ≠ k) :
+    dictSet d k v = d ++ [(k, v)] := by
+  induction d with
+  | nil => rfl
+  | cons p d ih =>
+    obtain ⟨k', v'⟩ := p
+    have hk : k' ≠ k := h (k', v') (by simp)
+    simp only [dictSet, hk, if_false, List.cons_append]
+    rw [ih (fun q hq => h q (List.mem_cons_of_mem _ hq))]
+
+theorem intake_plain (xs : List Attr) : ∀ (acc : List Attr),
+    (∀ p ∈ xs, plainKey p.1) → (xs.map (·.1)).Nodup → (∀ p ∈ acc, ∀ q ∈ xs, p.1 ≠ q.1) →
+    intake xs ⟨acc, [], []⟩ = ⟨acc ++ xs, [], []⟩ := by
+  induction xs with
+  | nil => intro acc _ _ _; simp [intake]
+  | cons x xs ih =>
+    intro acc hp hn hd
+    obtain ⟨k, v⟩ := x
+    have hk := hp (k, v) (by simp)
+    obtain ⟨hv, hl, h1, h2, h3⟩ := hk
+    have hfresh : ∀ p ∈ acc, p.1 ≠ k := fun p hp' => hd p hp' (k, v) (by simp)
+    simp only [intake, hl, hv, if_true, AttrState.set, h1, h2, h3, if_false]
+    rw [dictSet_fresh acc k v hfresh]
+    have hn' : k ∉ xs.map (·.1) ∧ (xs.map (·.1)).Nodup := by
+      have := hn; simp only [List.map_cons, List.nodup_cons] at this; exact this
+    rw [ih (acc ++ [(k, v)]) (fun p hp' => hp p (List.mem_cons_of_mem _ hp')) hn'.2 ?_]
+    · simp
+    · intro p hp' q hq
+      rcases List.mem_append.mp hp' with h | h
+      · exact hd p h q (List.mem_cons_of_mem _ hq)
+      · simp at h; subst h
+        intro e
+        exact hn'.1 (by simp only [List.mem_map]; exact ⟨q, hq, e.symm⟩)
+
+/-- **C01 (plain stores).** An attribute store holding only plain attributes (distinct, valid, lower-case
+    names other than class / style / spellcheck; any values, including missing ones) is re-read exactly. -/
+theorem plain_viewStable (d : List Attr) (hp : ∀ p ∈ d, plainKey p.1) (hn : (d.map (·.1)).Nodup) :
+    ViewStable ⟨d, [], []⟩ := by
+  have hview : (⟨d, [], []⟩ : AttrState).view = d := by
+    have h1 : dictDel d "class".toList = d := by
+      unfold dictDel
+      apply List.filter_eq_self.mpr
+      intro p hp'
+      have := (hp p hp').2.2.1
+      simpa using this
+    have h2 : dictDel d "style".toList = d := by
+      unfold dictDel
+      apply List.filter_eq_self.mpr
+      intro p hp'
+      have := (hp p hp').2.2.2.1
+      simpa using this
+    have hc : ("class".toList : Str) = ['c', 'l', 'a', 's', 's'] := rfl
+    have hs : ("style".toList : Str) = ['s', 't', 'y', 'l', 'e'] := rfl
+    simp only [AttrState.view, List.isEmpty_nil, if_true, h1, h2]
+  unfold ViewStable reintakeA
+  rw [hview]
+  have := intake_plain d [] hp hn (by simp)
+  simp only [AttrState.empty, List.nil_append] at this ⊢
+  rw [this, hview]
+
+/-! #### Non-vacuity: a concrete document meets the hypotheses of `roundtrip_single` -/
+example : lexStrict "<div id=\"a&quot;b\" checked >x&amp;y<br /><!--c--></div>".toList =
+    some [.start "div".toList [("id".toList, some "a\"b".toList), ("checked".toList, none)],
+          .data "x".toList, .entity "amp".toList, .data "y".toList, .startend "br".toList [],
+          .comment "c".toList, .end_ "div".toList] := by decide
+
 end AHP.C01
